@@ -5,7 +5,7 @@ import json
 import numpy as np
 
 
-class Violation(Exception):
+class Violation(BaseException):
     """An oracle found the implementation breaking a property."""
 
     def __init__(self, prop, inv, sig, detail=None):
@@ -23,7 +23,7 @@ class Violation(Exception):
         return (self.prop, self.inv, self.sig)
 
 
-class Skip(Exception):
+class Skip(BaseException):
     """Op cannot be executed in the current world (missing operand, failed
     precondition): it is a no-op, which keeps every subsequence executable."""
 
